@@ -45,10 +45,16 @@ func (c *PublishHeader) WriteHTMLTo(w io.Writer) (int64, error) {
 	if c.options.ShowIndividuals {
 		badge := core.NewCountBadge(len(c.document.Individuals()))
 		title := core.NewComponents(core.NewText("Individuals "), badge)
+		// There are no letters when there are no individuals to show.
+		link := "#"
+		if len(c.indexLetters) > 0 {
+			link = PageIndividuals(c.indexLetters[0])
+		}
+
 		item := core.NewNavItem(
 			title,
 			c.selectedTab == selectedIndividualsTab,
-			PageIndividuals(c.indexLetters[0]),
+			link,
 		)
 		items = append(items, item)
 	}
